@@ -100,6 +100,16 @@ fn gen_cases(seed: u64, thorough: bool) -> Vec<String> {
             }
         }
     }
+    // exactly one message per WebSocket binary message: a well-formed frame followed by surplus
+    // bytes must be refused by the server (not dispatched) and by the client (no value returned);
+    // the client's request ids start at 1
+    for extra in [1usize, 5, 48] {
+        let mut v = ping_frame(7); v.extend(rng.bytes(extra));
+        lines.push(format!("i={k} kind=net target=ws trail=1 bytes={}", hex(&v))); k += 1;
+        let mut v = repe::Message::builder().id(1).query_str("/ping").query_format(repe::QueryFormat::JsonPointer).body_json(&serde_json::json!(7)).unwrap().build().to_vec();
+        v.extend(rng.bytes(extra));
+        lines.push(format!("i={k} kind=net target=wsclient trail=1 bytes={}", hex(&v))); k += 1;
+    }
     lines
 }
 
@@ -147,7 +157,8 @@ fn run_net(target: &str, bs: &[u8]) -> String {
         }
         "ws" => {
             let r = match net::RawWs::connect(env.servers.ws) {
-                Ok(mut c) => { let _ = c.send(bs); match c.recv(Duration::from_millis(1500)) { Ok(f) => format!("reply:{}", f.len()), Err(e) => format!("closed:{}", e.split(' ').next().unwrap_or("x")) } }
+                // a reply is reported with its error code (0 = the request was dispatched and answered)
+                Ok(mut c) => { let _ = c.send(bs); match c.recv(Duration::from_millis(1500)) { Ok(f) => format!("reply:{}:{}", f.len(), if f.len() >= 48 { u32::from_le_bytes(f[44..48].try_into().unwrap()).to_string() } else { "short".into() }), Err(e) => format!("closed:{}", e.split(' ').next().unwrap_or("x")) } }
                 Err(e) => format!("connerr:{}", e.replace(' ', "_")),
             };
             let alive = net::RawWs::connect(env.servers.ws).and_then(|mut c| c.exchange(&ping_frame(9))).map(|r| r.len() > 48 && r[16] == 9).unwrap_or(false);
